@@ -115,7 +115,83 @@ func (g *Gen) call(in ssa.CallInstruction, val ssa.Value) {
 		return
 	}
 	ce := g.resolveCallee(c)
+	g.siteOrd[ce.label]++
+	anchor := fmt.Sprintf("%s#%d", ce.label, g.siteOrd[ce.label])
+	g.atStatements(anchor, "before", in, val, ce)
 	g.applyCall(ce, c, val, in.Pos(), "true")
+	g.atStatements(anchor, "after", in, val, ce)
+}
+
+// atStatements executes the anchored assertions / ghost updates of this call site.
+func (g *Gen) atStatements(anchor, when string, in ssa.CallInstruction, val ssa.Value, ce callee) {
+	for _, a := range g.S.Ats {
+		if a.Func != g.key || a.Anchor != anchor || a.When != when {
+			continue
+		}
+		g.atSeen[a] = true
+		vis := len(a.Props) == 0
+		for _, p := range a.Props {
+			if p == g.prop || g.prop == "" {
+				vis = true
+			}
+		}
+		if !vis {
+			continue
+		}
+		env := g.atEnv(in, val, ce, when == "after")
+		switch a.Kind {
+		case "assert":
+			g.oblige("at", anchor+":"+when, a.Tag, a.Props, false, g.transBool(a.E, env), in.Pos())
+		case "ghost":
+			if a.LHS.Op != "sel" {
+				panic(specErr(a.LHS, "ghost assignment needs x.field on the left"))
+			}
+			h, _, _ := g.ghostHeap(a.LHS.Name)
+			if h == "" {
+				panic(specErr(a.LHS, "%s is not a ghost field", a.LHS.Name))
+			}
+			ref := g.trans(a.LHS.Args[0], env)
+			rhs := g.trans(a.E, env)
+			g.assignHeap(h, "(store "+g.heap(h)+" "+ref.T+" "+rhs.T+")")
+		}
+	}
+}
+
+// atEnv: parameters, locals visible at the call instruction, and (after) the call's results.
+func (g *Gen) atEnv(in ssa.CallInstruction, val ssa.Value, ce callee, after bool) *Env {
+	env := g.fnEnv(nil)
+	base := env.lookup
+	blk := in.Block()
+	idx := 0
+	for i, x := range blk.Instrs {
+		if x == in.(ssa.Instruction) {
+			idx = i
+		}
+	}
+	env.lookup = func(name string, e *Env) (TV, bool) {
+		if tv, ok := base(name, e); ok {
+			return tv, true
+		}
+		// loop-carried variables visible in this block
+		return g.resolveLocalAt(name, blk, idx, e)
+	}
+	env.old.lookup = env.lookup
+	if after && val != nil {
+		rs := g.resultTerms(val, ce.sig)
+		vars := map[string]TV{}
+		for k, v := range env.vars {
+			vars[k] = v
+		}
+		for i, r := range rs {
+			vars[fmt.Sprintf("r%d", i)] = r
+			if len(rs) == 1 {
+				vars["result"] = r
+			}
+		}
+		env.vars = vars
+		env.old.vars = vars
+	}
+	return env
 }
 
 func (g *Gen) resultTerms(val ssa.Value, sig *types.Signature) []TV {
@@ -258,23 +334,31 @@ func (g *Gen) calleeEnv(ctr *Contract, ce callee, c *ssa.CallCommon, args []TV, 
 	vars := map[string]TV{}
 	var names []string
 	var ptypes []types.Type
+	var hdr []string
+	if ctr.Recv != "" {
+		hdr = append(hdr, ctr.Recv)
+	}
+	hdr = append(hdr, ctr.Params...)
 	if ce.fn != nil && len(ce.fn.Params) == len(args) {
 		for _, p := range ce.fn.Params {
 			names = append(names, p.Name())
 			ptypes = append(ptypes, p.Type())
 		}
-	} else {
-		// externals / interface methods / function values: names from the contract header
-		if ctr.Recv != "" {
-			names = append(names, ctr.Recv)
-		} else if ce.isInvoke || ce.sig.Recv() != nil {
-			names = append(names, "this")
+		if len(hdr) == len(args) {
+			names = hdr // the contract's own names win
+		} else if len(hdr) == len(args)-1 && ce.fn.Signature.Recv() != nil {
+			names = append([]string{names[0]}, hdr...)
+		} else if len(hdr) > 0 {
+			panic(fmt.Errorf("%s: contract %s names %d parameters (receiver included), function has %d", ctr.Pos, ctr.Key, len(hdr), len(args)))
 		}
-		names = append(names, ctr.Params...)
+	} else {
+		// interface methods / function values: names from the contract header
+		names = hdr
+		if len(hdr) == len(args)-1 && (ce.isInvoke) {
+			names = append([]string{"this"}, hdr...)
+		}
 		if ce.isInvoke {
 			ptypes = append(ptypes, c.Value.Type())
-		} else if ce.sig.Recv() != nil && ce.fn != nil {
-			ptypes = append(ptypes, ce.sig.Recv().Type())
 		}
 		ps := ce.sig.Params()
 		for i := 0; i < ps.Len(); i++ {
@@ -290,7 +374,7 @@ func (g *Gen) calleeEnv(ctr *Contract, ce callee, c *ssa.CallCommon, args []TV, 
 			vars[names[i]] = tv
 		}
 	}
-	if len(names) < len(args) && (len(ctr.Params) > 0 || ctr.Recv != "") {
+	if len(names) < len(args) && len(hdr) > 0 {
 		panic(fmt.Errorf("%s: contract %s names %d parameters, call has %d", ctr.Pos, ctr.Key, len(names), len(args)))
 	}
 	var pk *types.Package
@@ -358,6 +442,9 @@ func (g *Gen) applyContract(ctr *Contract, ce callee, c *ssa.CallCommon, args, r
 		cond := g.transBool(cl.E, preEnv)
 		g.oblige("pre", fmt.Sprintf("%s@%d", ctr.Key, ord), clTag(cl, i), cl.Props, false, implies(guard, cond), pos)
 	}
+	// modifies targets may name results (fresh objects); they are resolved in the pre-state
+	modEnv := &Env{g: g, vars: postEnv.vars, heapState: pre, pkg: preEnv.pkg, lookup: preEnv.lookup}
+	modEnv.old = modEnv
 	// modifies: declared frame, or (in-repo callee without a modifies clause) the inferred frame
 	if ctr.declaresFrame(g.prop) || ctr.Assumed || ce.fn == nil || !inRepoFn(ce.fn) {
 		for _, cl := range ctr.Clauses {
@@ -365,7 +452,7 @@ func (g *Gen) applyContract(ctr *Contract, ce callee, c *ssa.CallCommon, args, r
 				continue
 			}
 			for _, m := range cl.Mods {
-				g.havocLoc(m, preEnv)
+				g.havocLoc(m, modEnv)
 			}
 		}
 	} else {
@@ -890,6 +977,25 @@ func (g *Gen) formatTerm(format string, vals []ssa.Value) string {
 		t = "(sconcat " + pieces[i] + " " + t + ")"
 	}
 	return t
+}
+
+// resolveLocalAt also finds phis of dominating loop heads by their source name.
+func (g *Gen) resolveLocalAt(name string, b *ssa.BasicBlock, limit int, e *Env) (TV, bool) {
+	// the most recent definition wins: DebugRefs first (they include phi-defined values)
+	if tv, ok := g.resolveLocal(name, b, limit, e); ok {
+		return tv, true
+	}
+	for _, bb := range g.fn.Blocks {
+		if !(bb == b || bb.Dominates(b)) {
+			continue
+		}
+		for _, in := range bb.Instrs {
+			if phi, ok := in.(*ssa.Phi); ok && phi.Comment == name {
+				return TV{g.v(phi), sortOf(phi.Type()), phi.Type()}, true
+			}
+		}
+	}
+	return TV{}, false
 }
 
 // ---------------------------------------------------------------------------
